@@ -108,6 +108,20 @@ def make_cases(ctx, hs, opts, runs, per_history=None, salt=0, reann=False):
     return cases
 
 
+def huge_cases(ctx, runs):
+    """parents with more than 2^16 references (OsmHistoryHuge.tla): the projected history is the case, lay.huge says
+    how the harness expands it"""
+    rng = random.Random(ctx.seed * 4099 + 5)
+    cases = []
+    for hc in vlib.tlc_gen(ctx, "OsmHistoryHuge", "OsmHistoryHuge.cfg"):
+        for o in FAM_OPTS[:2]:
+            kt, zv, lay = layout(rng, hc["h"], o, runs)
+            lay["huge"] = {"n": hc["n"], "pos": hc["pos"], "fill": hc["fill"]}
+            lay["sameid"] = False
+            cases.append({"h": hc["h"], "o": o, "kt": kt, "zv": zv, "lay": lay})
+    return cases
+
+
 def random_cases(ctx, binpath, n, runs, kids=10, vers=6, pars=4, reann=False):
     recs = vlib.run_go(binpath, args=["-random", str(n), "-seed", str(ctx.seed), "-kids", str(kids), "-vers", str(vers),
                                       "-pars", str(pars)])
@@ -335,6 +349,9 @@ def run(ctx):
         vlib.log("  family: %d histories -> %d cases" % (len(fam), len(cases)))
         total += len(cases)
         run_and_judge(ctx, binpath, cases, "c11")
+        hc = huge_cases(ctx, runs=1)
+        vlib.log("  huge parents: %d cases" % len(hc))
+        run_and_judge(ctx, binpath, hc, "c11")
         rc = random_cases(ctx, binpath, 400 if quick else 4000, runs=1)
         run_and_judge(ctx, binpath, rc, "c11")
     finally:
